@@ -8,6 +8,7 @@ Lemma ltp_err_unchanged : forall c w parent nm child w' e,
   link_to_parent c w parent nm child = (w', Err e) -> w' = w.
 Proof.
   intros c w parent nm child w' e. unfold link_to_parent.
+  destruct (strict_names c && negb (heap_name_ok nm)); [intro H; inversion H; reflexivity|].
   destruct (parent_group w parent); [|intro H; inversion H; reflexivity].
   destruct (alookup n (heaps w)); [|intro H; inversion H; reflexivity].
   destruct (alookup n (snods w)); [|intro H; inversion H; reflexivity].
@@ -32,7 +33,8 @@ Lemma ltp_spec : forall c w parent nm child g seg ents ns,
        gwf seg' ents' (ns ++ [nm]) /\ blen seg' = blen seg).
 Proof.
   intros c w parent nm child g seg ents ns Hp Hh Hs Hwf Hnm.
-  unfold link_to_parent. rewrite Hp, Hh, Hs. cbn [parse_snod sn_entries].
+  unfold link_to_parent. rewrite (proj2 (heap_name_ok_iff nm) Hnm), andb_false_r.
+  rewrite Hp, Hh, Hs. cbn [parse_snod sn_entries].
   destruct (existsb (entry_has_name seg nm) ents) eqn:D.
   - left. split; [apply (dup_check_iff _ _ _ nm Hwf); assumption | reflexivity].
   - right. assert (Hnin : ~ In nm ns) by (intro I; apply (dup_check_iff _ _ _ nm Hwf) in I; congruence).
@@ -128,18 +130,24 @@ Proof.
   - apply (i_pos _ _ _ I).
 Qed.
 
-(* linkToParent with a well-formed name preserves the invariant, whatever it answers *)
-Lemma invb_ltp : forall c n w parent nm child, InvB c n w -> hname_ok nm ->
+(* linkToParent preserves the invariant, whatever it answers, when the name is well formed or
+   linkToParent checks that itself *)
+Lemma invb_ltp : forall c n w parent nm child, InvB c n w -> (strict_names c = true \/ hname_ok nm) ->
   InvB c n (fst (link_to_parent c w parent nm child)).
 Proof.
-  intros c n w parent nm child I Hnm.
-  destruct (parent_group w parent) as [g|] eqn:P.
-  - destruct (parent_group_structs _ _ _ _ _ I P) as [[seg Hh] [ents Hs]].
-    destruct (i_wf _ _ _ I g seg ents Hh Hs) as (ns & Hwf & _).
-    destruct (ltp_spec c w parent nm child g seg ents ns P Hh Hs Hwf Hnm)
-      as [(_ & E)|[(_ & _ & E)|[(_ & _ & _ & E)|(_ & _ & _ & seg' & E & Hwf' & Hl)]]]; rewrite E; cbn [fst]; try assumption.
-    eapply invb_linked; eassumption.
-  - unfold link_to_parent. rewrite P. assumption.
+  intros c n w parent nm child I Hd.
+  destruct (heap_name_ok nm) eqn:Hb.
+  - assert (Hnm : hname_ok nm) by (apply heap_name_ok_iff; assumption).
+    destruct (parent_group w parent) as [g|] eqn:P.
+    + destruct (parent_group_structs _ _ _ _ _ I P) as [[seg Hh] [ents Hs]].
+      destruct (i_wf _ _ _ I g seg ents Hh Hs) as (ns & Hwf & _).
+      destruct (ltp_spec c w parent nm child g seg ents ns P Hh Hs Hwf Hnm)
+        as [(_ & E)|[(_ & _ & E)|[(_ & _ & _ & E)|(_ & _ & _ & seg' & E & Hwf' & Hl)]]]; rewrite E; cbn [fst]; try assumption.
+      eapply invb_linked; eassumption.
+    + unfold link_to_parent. rewrite Hb, andb_false_r, P. assumption.
+  - assert (S : strict_names c = true).
+    { destruct Hd as [S|Hn]; [assumption|]. apply heap_name_ok_iff in Hn. congruence. }
+    unfold link_to_parent. rewrite S, Hb. assumption.
 Qed.
 
 Lemma invb_add_object : forall c n w id o, InvB c n w -> id < n -> InvB c n (set_objects w (aset id o (objects w))).
@@ -183,6 +191,7 @@ Lemma ltp_frame : forall c w parent nm child,
   groups w' = groups w /\ objects w' = objects w /\ clock w' = clock w.
 Proof.
   intros c w parent nm child. unfold link_to_parent.
+  destruct (strict_names c && negb (heap_name_ok nm)); [cbn; auto|].
   destruct (parent_group w parent); [|cbn; auto].
   destruct (alookup n (heaps w)); [|cbn; auto].
   destruct (alookup n (snods w)); [|cbn; auto].
@@ -197,6 +206,7 @@ Lemma ltp_keeps_keys : forall c w parent nm child k,
   (alookup k (snods w) <> None -> alookup k (snods w') <> None).
 Proof.
   intros c w parent nm child k. unfold link_to_parent.
+  destruct (strict_names c && negb (heap_name_ok nm)); [cbn; auto|].
   destruct (parent_group w parent); [|cbn; auto].
   destruct (alookup n (heaps w)); [|cbn; auto].
   destruct (alookup n (snods w)); [|cbn; auto].
@@ -210,7 +220,7 @@ Lemma step_body_clock : forall c w o, clock (fst (step_body c w o)) = clock w.
 Proof.
   intros c w o. destruct o as [p|p|p q|p q]; cbn [step_body].
   - unfold create_group. destruct (negb (validate_group_path p)); [reflexivity|].
-    destruct (parse_path p) as [parent nm]. destruct (negb (parent_registered w parent)); [reflexivity|].
+    cbv zeta. destruct (parse_path _) as [parent nm]. destruct (negb (parent_registered w parent)); [reflexivity|].
     match goal with |- context [link_to_parent ?c ?w ?a ?b ?d] =>
       pose proof (ltp_frame c w a b d) as F; destruct (link_to_parent c w a b d) as [w4 [|e]] end;
       cbn [fst clock set_groups set_objects set_snods set_heaps] in *; destruct F as (_ & _ & F); rewrite F; reflexivity.
@@ -234,15 +244,17 @@ Proof.
     destruct F as (_ & _ & F). cbv zeta in F. rewrite F. reflexivity.
 Qed.
 
-(* one API call with a well-formed link name preserves the invariant *)
-Lemma step_body_inv : forall c w o, Inv1 c w -> hname_ok (op_link_name o) ->
+(* one API call preserves the invariant when its link name is well formed or linkToParent checks it *)
+Definition name_cond (c : cfg) (nm : name) : Prop := strict_names c = true \/ hname_ok nm.
+
+Lemma step_body_inv : forall c w o, Inv1 c w -> name_cond c (op_link_name c o) ->
   InvB c (clock w + 1) (fst (step_body c w o)).
 Proof.
-  intros c w o I Hnm. unfold Inv1 in I.
+  intros c w o I Hnm. unfold Inv1 in I. unfold op_link_name in Hnm.
   assert (I' : InvB c (clock w + 1) w) by (eapply invb_mono; [|eassumption]; lia).
-  destruct o as [p|p|p q|p q]; cbn [step_body op_link_name] in *.
-  - unfold create_group. destruct (negb (validate_group_path p)); [assumption|].
-    destruct (parse_path p) as [parent nm] eqn:PP. cbn [snd] in Hnm.
+  destruct o as [p|p|p q|p q]; cbn [step_body op_path_eff] in *.
+  - unfold create_group. destruct (negb (validate_group_path p)); [assumption|]. cbv zeta.
+    destruct (parse_path (if canon_group_key c then trim_suffix_slash p else p)) as [parent nm] eqn:PP. cbn [snd] in Hnm.
     destruct (negb (parent_registered w parent)); [assumption|].
     set (w3 := set_objects _ _).
     assert (I3 : InvB c (clock w + 1) w3).
@@ -282,18 +294,24 @@ Proof.
     apply invb_ltp; [|assumption]. apply invb_add_object; [assumption | lia].
 Qed.
 
-Lemma step_inv : forall c w o, Inv1 c w -> hname_ok (op_link_name o) -> Inv1 c (fst (step c w o)).
+Lemma step_inv : forall c w o, Inv1 c w -> name_cond c (op_link_name c o) -> Inv1 c (fst (step c w o)).
 Proof.
   intros c w o I H. unfold step. pose proof (step_body_inv c w o I H) as B. pose proof (step_body_clock c w o) as C.
   destruct (step_body c w o) as [w' r]. cbn [fst] in *. unfold Inv1. cbn [clock tick]. rewrite C.
   apply invb_tick. assumption.
 Qed.
 
-Lemma run_inv : forall c h w, Inv1 c w -> names_ok h = true -> Inv1 c (fst (run (step c) w h)).
+Lemma names_ok_cons : forall c o h, names_ok c (o :: h) = true -> name_cond c (op_link_name c o) /\ names_ok c h = true.
+Proof.
+  intros c o h N. unfold names_ok, name_cond in *. destruct (strict_names c); [auto|]. cbn [orb forallb] in *.
+  apply andb_true_iff in N. destruct N as [N1 N2]. split; [right; apply heap_name_ok_iff; assumption | assumption].
+Qed.
+
+Lemma run_inv : forall c h w, Inv1 c w -> names_ok c h = true -> Inv1 c (fst (run (step c) w h)).
 Proof.
   intros c h. induction h as [|o h IH]; intros w I N; [assumption|].
-  cbn [names_ok forallb] in N. apply andb_true_iff in N. destruct N as [N1 N2].
-  cbn [run]. pose proof (step_inv c w o I (proj1 (heap_name_ok_iff _) N1)) as I1.
+  destruct (names_ok_cons c o h N) as [N1 N2].
+  cbn [run]. pose proof (step_inv c w o I N1) as I1.
   destruct (step c w o) as [w1 r]. cbn [fst] in I1. specialize (IH w1 I1 N2).
   destruct (run (step c) w1 h) as [w2 rs]. assumption.
 Qed.
@@ -338,7 +356,7 @@ Lemma step_err_same_ns : forall c w o w' e, step_body c w o = (w', Err e) -> sam
 Proof.
   intros c w o w' e. destruct o as [p|p|p q|p q]; cbn [step_body].
   - unfold create_group. destruct (negb (validate_group_path p)); [intro H; inversion H; apply same_ns_refl|].
-    destruct (parse_path p) as [parent nm]. destruct (negb (parent_registered w parent)); [intro H; inversion H; apply same_ns_refl|].
+    cbv zeta. destruct (parse_path _) as [parent nm]. destruct (negb (parent_registered w parent)); [intro H; inversion H; apply same_ns_refl|].
     match goal with |- context [link_to_parent ?c ?w3 ?a ?b ?d] =>
       destruct (link_to_parent c w3 a b d) as [w4 [|e4]] eqn:L end; intro H; inversion H; subst.
     apply ltp_err_unchanged in L. subst. split; [reflexivity|]. intros k Hk.
@@ -373,7 +391,7 @@ Proof.
   intros c w o w' e Hh H. split; [eapply step_err_same_ns; eassumption|].
   destruct o as [p|p|p q|p q]; [| |discriminate|]; cbn [step_body] in H.
   - unfold create_group in H. destruct (negb (validate_group_path p)); [inversion H; auto|].
-    destruct (parse_path p) as [parent nm]. destruct (negb (parent_registered w parent)); [inversion H; auto|].
+    cbv zeta in H. destruct (parse_path _) as [parent nm]. destruct (negb (parent_registered w parent)); [inversion H; auto|].
     match type of H with context [link_to_parent ?c ?w3 ?a ?b ?d] =>
       destruct (link_to_parent c w3 a b d) as [w4 [|e4]] eqn:L end; inversion H; subst.
     apply ltp_err_unchanged in L. subst. intros k Hk. cbn [objects set_objects set_snods set_heaps].
@@ -390,11 +408,7 @@ Proof.
 Qed.
 
 (* ---------------------------------------------------------------- every call is "checks, then linkToParent" *)
-Definition op_path (o : op) : path := match o with MkGroup p | MkDataset p | HardLink p _ | SoftLink p _ => p end.
-Definition op_parent (o : op) : path := fst (parse_path (op_path o)).
-
-Lemma op_link_name_eq : forall o, op_link_name o = snd (parse_path (op_path o)).
-Proof. destruct o; reflexivity. Qed.
+Definition op_parent (c : cfg) (o : op) : path := fst (parse_path (op_path_eff c o)).
 
 (* either the call returns early with the state untouched, or its answer is the answer of linkToParent
    on a state that differs from w only in object headers and in structures at the fresh address *)
@@ -402,11 +416,12 @@ Lemma step_body_shape : forall c w o,
   (exists e, step_body c w o = (w, Err e)) \/
   (exists wpre child, groups wpre = groups w /\
      (forall k, k <> clock w -> alookup k (heaps wpre) = alookup k (heaps w) /\ alookup k (snods wpre) = alookup k (snods w)) /\
-     is_ok (snd (step_body c w o)) = is_ok (snd (link_to_parent c wpre (op_parent o) (op_link_name o) child))).
+     is_ok (snd (step_body c w o)) = is_ok (snd (link_to_parent c wpre (op_parent c o) (op_link_name c o) child))).
 Proof.
-  intros c w o. unfold op_parent. rewrite op_link_name_eq. destruct o as [p|p|p q|p q]; cbn [step_body op_path].
-  - unfold create_group. destruct (negb (validate_group_path p)); [left; eauto|].
-    destruct (parse_path p) as [parent nm]. destruct (negb (parent_registered w parent)); [left; eauto|].
+  intros c w o. unfold op_parent, op_link_name. destruct o as [p|p|p q|p q]; cbn [step_body op_path_eff].
+  - unfold create_group. destruct (negb (validate_group_path p)); [left; eauto|]. cbv zeta.
+    destruct (parse_path (if canon_group_key c then trim_suffix_slash p else p)) as [parent nm].
+    destruct (negb (parent_registered w parent)); [left; eauto|].
     right. match goal with |- context [link_to_parent ?c ?w3 ?a ?b ?d] => exists w3, d end.
     split; [reflexivity|]. split.
     + intros k Hk. cbn [heaps snods set_objects set_snods set_heaps]. rewrite !alookup_aset_neq by congruence. auto.
@@ -436,41 +451,42 @@ Proof. intros w w' parent H. unfold parent_group. rewrite H. reflexivity. Qed.
 
 Lemma ltp_dup_raw : forall c w parent nm child g seg ents,
   parent_group w parent = Some g -> alookup g (heaps w) = Some seg -> alookup g (snods w) = Some ents ->
-  In (Some nm) (map (name_of seg) ents) -> link_to_parent c w parent nm child = (w, Err EDup).
+  In (Some nm) (map (name_of seg) ents) -> exists e, link_to_parent c w parent nm child = (w, Err e).
 Proof.
-  intros c w parent nm child g seg ents Hp Hh Hs I. unfold link_to_parent. rewrite Hp, Hh, Hs. cbn [parse_snod sn_entries].
+  intros c w parent nm child g seg ents Hp Hh Hs I. unfold link_to_parent.
+  destruct (strict_names c && negb (heap_name_ok nm)); [eauto|]. rewrite Hp, Hh, Hs. cbn [parse_snod sn_entries].
   assert (E : existsb (entry_has_name seg nm) ents = true).
   { apply existsb_exists. apply in_map_iff in I. destruct I as (e & He & Ie). exists e. split; [assumption|].
     unfold entry_has_name. rewrite He. apply bytes_eqb_refl. }
-  rewrite E. reflexivity.
+  rewrite E. eauto.
 Qed.
 
 (* the name is already present in the group the call would link into *)
-Definition name_exists (w : wstate) (o : op) : Prop :=
-  exists g names, parent_group w (op_parent o) = Some g /\ group_names w g = Some names /\ In (Some (op_link_name o)) names.
+Definition name_exists (c : cfg) (w : wstate) (o : op) : Prop :=
+  exists g names, parent_group w (op_parent c o) = Some g /\ group_names w g = Some names /\ In (Some (op_link_name c o)) names.
 
 Lemma structs_not_fresh : forall c w g names, Inv1 c w -> group_names w g = Some names -> g <> clock w.
 Proof.
   intros c w g names I H E. subst. unfold group_names in H. rewrite (i_fresh_h _ _ _ I (clock w)) in H by lia. discriminate.
 Qed.
 
-Lemma step_reject_dup : forall c w o, Inv1 c w -> name_exists w o -> is_ok (snd (step_body c w o)) = false.
+Lemma step_reject_dup : forall c w o, Inv1 c w -> name_exists c w o -> is_ok (snd (step_body c w o)) = false.
 Proof.
   intros c w o I (g & names & Hp & Hn & Hin).
   destruct (step_body_shape c w o) as [(e & E)|(wpre & child & Hg & Hk & E)]; [rewrite E; reflexivity|].
   rewrite E. pose proof (structs_not_fresh _ _ _ _ I Hn) as Hne. destruct (Hk g Hne) as [K1 K2].
   unfold group_names in Hn. destruct (alookup g (heaps w)) as [seg|] eqn:Hh; [|discriminate].
   destruct (alookup g (snods w)) as [ents|] eqn:Hs; [|discriminate]. inversion Hn; subst.
-  rewrite (ltp_dup_raw c wpre (op_parent o) (op_link_name o) child g seg ents); try congruence.
-  - reflexivity.
+  destruct (ltp_dup_raw c wpre (op_parent c o) (op_link_name c o) child g seg ents) as (e & X); try congruence.
   - rewrite (parent_group_groups _ _ _ Hg). assumption.
+  - rewrite X. reflexivity.
 Qed.
 
-Lemma step_reject_missing_parent : forall c w o, parent_group w (op_parent o) = None -> is_ok (snd (step_body c w o)) = false.
+Lemma step_reject_missing_parent : forall c w o, parent_group w (op_parent c o) = None -> is_ok (snd (step_body c w o)) = false.
 Proof.
   intros c w o Hp.
   destruct (step_body_shape c w o) as [(e & E)|(wpre & child & Hg & Hk & E)]; [rewrite E; reflexivity|].
-  rewrite E. unfold link_to_parent. rewrite (parent_group_groups _ _ _ Hg), Hp. reflexivity.
+  rewrite E. unfold link_to_parent. destruct (strict_names c && _); [reflexivity|]. rewrite (parent_group_groups _ _ _ Hg), Hp. reflexivity.
 Qed.
 
 (* bytes of the heap in use, computed from the names the reader decodes *)
@@ -482,9 +498,9 @@ Proof.
   rewrite !blen_app, !blen_cons, !blen_nil. nlia.
 Qed.
 
-Lemma step_capacity : forall c w o g names, Inv1 c w -> hname_ok (op_link_name o) ->
-  parent_group w (op_parent o) = Some g -> group_names w g = Some names ->
-  (snod_cap c <= blen names \/ new_heap_size (heap_cap c) < used_bytes names + blen (op_link_name o) + 1) ->
+Lemma step_capacity : forall c w o g names, Inv1 c w -> hname_ok (op_link_name c o) ->
+  parent_group w (op_parent c o) = Some g -> group_names w g = Some names ->
+  (snod_cap c <= blen names \/ new_heap_size (heap_cap c) < used_bytes names + blen (op_link_name c o) + 1) ->
   is_ok (snd (step_body c w o)) = false.
 Proof.
   intros c w o g names I Hnm Hp Hn Hcap.
@@ -495,9 +511,9 @@ Proof.
   destruct (i_wf _ _ _ I g seg ents Hh Hs) as (ns & Hwf & Hlen).
   rewrite (names_decode _ _ _ Hwf) in Hcap. rewrite used_bytes_enc, blen_map in Hcap.
   pose proof (gwf_length _ _ _ Hwf) as HL.
-  assert (Hp' : parent_group wpre (op_parent o) = Some g) by (rewrite (parent_group_groups _ _ _ Hg); assumption).
+  assert (Hp' : parent_group wpre (op_parent c o) = Some g) by (rewrite (parent_group_groups _ _ _ Hg); assumption).
   rewrite <- K1 in Hh. rewrite <- K2 in Hs.
-  destruct (ltp_spec c wpre (op_parent o) (op_link_name o) child g seg ents ns Hp' K1 K2 Hwf Hnm)
+  destruct (ltp_spec c wpre (op_parent c o) (op_link_name c o) child g seg ents ns Hp' K1 K2 Hwf Hnm)
     as [(_ & X)|[(_ & _ & X)|[(_ & _ & _ & X)|(_ & F1 & F2 & _)]]]; try (rewrite X; reflexivity).
   exfalso. unfold blen in *. destruct Hcap; nlia.
 Qed.
@@ -505,7 +521,7 @@ Qed.
 (* ---------------------------------------------------------------- statements used by Props/C03.v *)
 Definition reach (c : cfg) (h : list op) : wstate := fst (run (step c) (init c) h).
 
-Lemma reach_inv : forall c h, names_ok h = true -> Inv1 c (reach c h).
+Lemma reach_inv : forall c h, names_ok c h = true -> Inv1 c (reach c h).
 Proof. intros c h H. apply run_inv; [apply invb_init | assumption]. Qed.
 
 Lemma err_same_ns_of_not_ok : forall c w o, is_ok (snd (step_body c w o)) = false -> same_ns (clock w) w (fst (step_body c w o)).
@@ -513,11 +529,11 @@ Proof.
   intros c w o H. destruct (step_body c w o) as [w' [|e]] eqn:B; [discriminate|]. cbn [fst]. eapply step_err_same_ns; eassumption.
 Qed.
 
-Lemma no_dup_reach : forall c h g names, names_ok h = true -> group_names (reach c h) g = Some names ->
+Lemma no_dup_reach : forall c h g names, names_ok c h = true -> group_names (reach c h) g = Some names ->
   NoDup names /\ Forall (fun x => x <> None) names.
 Proof. intros c h g names H. apply inv_no_dup with (c := c). apply reach_inv. assumption. Qed.
 
-Lemma reject_dup_reach : forall c h o, names_ok h = true -> name_exists (reach c h) o ->
+Lemma reject_dup_reach : forall c h o, names_ok c h = true -> name_exists c (reach c h) o ->
   is_ok (snd (step_body c (reach c h) o)) = false /\
   same_ns (clock (reach c h)) (reach c h) (fst (step_body c (reach c h) o)).
 Proof.
@@ -525,16 +541,16 @@ Proof.
   split; [assumption | apply err_same_ns_of_not_ok; assumption].
 Qed.
 
-Lemma reject_missing_parent_any : forall c w o, parent_group w (op_parent o) = None ->
+Lemma reject_missing_parent_any : forall c w o, parent_group w (op_parent c o) = None ->
   is_ok (snd (step_body c w o)) = false /\ same_ns (clock w) w (fst (step_body c w o)).
 Proof.
   intros c w o H. assert (X : is_ok (snd (step_body c w o)) = false) by (apply step_reject_missing_parent; assumption).
   split; [assumption | apply err_same_ns_of_not_ok; assumption].
 Qed.
 
-Lemma capacity_reach : forall c h o g names, names_ok h = true -> heap_name_ok (op_link_name o) = true ->
-  parent_group (reach c h) (op_parent o) = Some g -> group_names (reach c h) g = Some names ->
-  (snod_cap c <= blen names \/ new_heap_size (heap_cap c) < used_bytes names + blen (op_link_name o) + 1) ->
+Lemma capacity_reach : forall c h o g names, names_ok c h = true -> heap_name_ok (op_link_name c o) = true ->
+  parent_group (reach c h) (op_parent c o) = Some g -> group_names (reach c h) g = Some names ->
+  (snod_cap c <= blen names \/ new_heap_size (heap_cap c) < used_bytes names + blen (op_link_name c o) + 1) ->
   is_ok (snd (step_body c (reach c h) o)) = false /\
   same_ns (clock (reach c h)) (reach c h) (fst (step_body c (reach c h) o)).
 Proof.
